@@ -297,9 +297,11 @@ def rebuild : View → RState → St → RState × St × Nat
 def rerunFor (st : St) (ks : Keyed.KState) (texts : List (Nat × Nat)) (keys : List Nat) :
     Keyed.KState × List (Nat × Nat) × St × Nat :=
   let frm := ks.hashed
-  let ks' := Keyed.rebuild { ks with w := { ks.w with next := st.next } } keys
+  -- the node-id counter is global: the list continues from whichever is larger
+  let n0 := max ks.w.next st.next
+  let ks' := Keyed.rebuild { ks with w := { ks.w with next := n0 } } keys
   let nb := ks'.w.log.builds.length
-  let lis := List.range' st.next nb
+  let lis := List.range' n0 nb
   let texts' := texts.filter (fun p => ks'.w.kids.contains p.1) ++ lis.zip (List.range' ks'.w.next nb)
   let delta := ks'.w.log.unmounts.length + nb + 2 * (Keyed.domMovedKeys Keyed.diff frm keys).length
   (ks', texts', { st with next := ks'.w.next + nb }, delta)
